@@ -26,7 +26,7 @@ from copsim.seams import CrashTracer, body_codes_of, sterile, with_global_state
 PROPERTY = 'C15'
 LEVEL = 'exploration'
 TIERS = {
-    'quick': {'runs': 260, 'wall': 75, 'batch': 4},
+    'quick': {'runs': 1500, 'wall': 70, 'batch': 6},
     'thorough': {'runs': 40000, 'wall': 840, 'batch': 8},
 }
 RULE = ('Each run = a seeded population of 1-4 fitted models (all sampler classes, seeds as '
@@ -191,10 +191,14 @@ def fixed_runs(tier):
     """Crash-point enumeration: for one representative seeded call per sampler class, the
     crash points k = offset (mod stride) of the body are injected one by one.  In the
     thorough tier all offsets are present, i.e. every crash point of that call is hit."""
-    stride = 16
-    offsets = range(stride) if tier == 'thorough' else (0, 7)
     runs = []
     for name, cls, ctor in _ENUM_REPS:
+        # thorough: every crash point (all offsets); quick: a fixed 1/8 .. 1/64 sample
+        stride = 16
+        offsets = range(stride)
+        if tier != 'thorough':
+            stride = 96 if name.startswith('Vine') else 16
+            offsets = (0, stride // 2 + 1)
         kind = zoo.kind_of(cls)
         spec = {'id': 'm0', 'cls': cls, 'ctor': ctor, 'seed': {'kind': 'int', 'v': 11},
                 'fit_state': 5}
